@@ -141,6 +141,10 @@ def entries():
     add("QRLinear", "transform", lambda: TR.QRLinear(3, num_householder=3), _rn(3), flags={"inv", "linear"})
     add("SVDLinear", "transform", lambda: TR.SVDLinear(3, num_householder=2, identity_init=False), _rn(3), flags={"inv", "linear"})
     # cache on, with the orthogonal factor in a child module (loaded after the parent's own parameters)
+    # exactly as constructed (unit Householder vectors): values and GRADIENTS are those of the general formula
+    add("HouseholderSequence/as-constructed", "transform", lambda: TR.HouseholderSequence(3, 3), _rn(3), flags={"inv", "linear", "noperturb"})
+    add("QRLinear/as-constructed", "transform", lambda: TR.QRLinear(3, num_householder=3), _rn(3), flags={"inv", "linear", "noperturb"})
+    add("SVDLinear/as-constructed", "transform", lambda: TR.SVDLinear(3, num_householder=4, identity_init=False), _rn(3), flags={"inv", "linear", "noperturb"})
     add("QRLinear/cached", "transform", lambda: TR.QRLinear(3, num_householder=3, using_cache=True), _rn(3), flags={"inv", "linear", "bigperturb"})
     add("SVDLinear/cached", "transform", lambda: TR.SVDLinear(3, num_householder=2, using_cache=True, identity_init=False), _rn(3), flags={"inv", "linear", "bigperturb"})
     add("NaiveLinear", "transform", lambda: TR.NaiveLinear(3), _rn(3), flags={"inv", "linear", "ctor_random"})
@@ -249,6 +253,15 @@ def entries():
     # ---- flows
     add("Flow(LU+MAF|Normal)", "flow", lambda: FL.base.Flow(TR.CompositeTransform([TR.LULinear(3, identity_init=False), TR.MaskedAffineAutoregressiveTransform(3, 8, num_blocks=1)]), D.StandardNormal([3])), _rn(3), flags={"sample"})
     add("Flow(coupling|CondNormal)+embedding", "flow", lambda: FL.base.Flow(TR.AffineCouplingTransform([1, -1, 1], resnet(4)), D.ConditionalDiagonalNormal([3], context_encoder=torch.nn.Linear(4, 6)), embedding_net=torch.nn.Linear(2, 4)), _rn(3), _rn(2), flags={"sample", "needs_ctx"})
+    # embedding nets with nothing to train (parameter-free, frozen): the context still is a differentiable input
+    add("Flow(coupling|CondNormal)+Tanh-embedding", "flow", lambda: FL.base.Flow(TR.AffineCouplingTransform([1, -1, 1], resnet(2)), D.ConditionalDiagonalNormal([3], context_encoder=torch.nn.Linear(2, 6)), embedding_net=torch.nn.Tanh()), _rn(3), _rn(2), flags={"sample", "needs_ctx"})
+
+    def frozen_embedding_flow():
+        emb = torch.nn.Linear(2, 4)
+        emb.requires_grad_(False)
+        return FL.base.Flow(TR.AffineCouplingTransform([1, -1, 1], resnet(4)), D.ConditionalDiagonalNormal([3], context_encoder=torch.nn.Linear(4, 6)), embedding_net=emb)
+
+    add("Flow(coupling|CondNormal)+frozen-embedding", "flow", frozen_embedding_flow, _rn(3), _rn(2), flags={"sample", "needs_ctx"})
     add("Flow(affine|CondNormal identity-encoder)", "flow", lambda: FL.base.Flow(TR.PointwiseAffineTransform(shift=0.5, scale=2.0), D.ConditionalDiagonalNormal([3])), _rn(3), (lambda n, g: 0.5 * torch.randn(n, 6, generator=g)), flags={"sample", "needs_ctx", "noparams"})
     add("MaskedAutoregressiveFlow", "flow", lambda: FL.MaskedAutoregressiveFlow(3, 8, num_layers=2, num_blocks_per_layer=1, use_random_permutations=True, use_random_masks=True, use_residual_blocks=False, batch_norm_between_layers=True), _rn(3), flags={"sample", "ctor_random", "needs_init", "batch_coupled_train"})
     add("SimpleRealNVP", "flow", lambda: FL.SimpleRealNVP(4, 8, num_layers=2, num_blocks_per_layer=1), _rn(4), flags={"sample"})
